@@ -153,6 +153,13 @@ def run(ctx):
                        construct="chain:%s%s" % (inner, outer), node=i, detail="constants combined with %s" % comb)
             else:
                 ctx.ob("C38.R4", site, "only chains of one and the same operator (+,+ or -,-) are re-associated", False, construct="chain:%s%s" % (inner, outer), node=i, detail="branch also matches (y %s c1) %s c2" % (inner, outer))
+        if ("-", "-") in pairs:
+            # subtraction does not commute: only (y - c1) - c2 may be re-associated, never (c1 - y) - c2
+            right_const = any(isinstance(t, ast.Call) and norm(t) == "self.is_const(instruction.a.b)" for t in conj)
+            keeps = [st for st in ast.walk(ast.Module(body=i.body, type_ignores=[])) if isinstance(st, ast.Assign) and norm(st.targets[0]) == "instruction.a"]
+            newa = norm(_sym.deep_inline(keeps[0].value, _sym.single_assign_env(ast.Module(body=i.body, type_ignores=[])))) if len(keeps) == 1 else None
+            ctx.ob("C38.R4", site, "a `-` chain is folded only in the form (y - c1) - c2: the guard requires the inner RIGHT operand to be the constant and the new left operand is the inner left operand (with (c1 - y) - c2 the result would be y - (c1 + c2) instead of (c1 - c2) - y)",
+                   right_const and newa == "instruction.a.a", construct="sub-chain-constant-on-the-right", node=i, detail="guard has is_const(instruction.a.b): %s; instruction.a = %s" % (right_const, newa))
     ctx.need(n_chain >= 1, "ConstantFolder.on_block: re-association branches not found")
     ic = ctx.fn(F, "ConstantFolder.is_const")
     ok = False
